@@ -1,7 +1,8 @@
 SPECIFICATION Spec
-CONSTANTS MaxN = 3
+CONSTANTS MaxN = 4
 Coords <- C3
 CtrlCoords <- C2
+Letters <- LettersZ
 GuardZ = FALSE
 GuardDeg = TRUE
 GuardZeroL = TRUE
